@@ -123,8 +123,17 @@ def _conv(seq, flags):
             else:
                 out.append(z3.Loop(r, lo, hi))
         elif op == sc.AT:
-            if av in (sc.AT_BEGINNING, sc.AT_BEGINNING_STRING, sc.AT_END, sc.AT_END_STRING):
+            if av in (sc.AT_BEGINNING, sc.AT_BEGINNING_STRING) and not out and not flags & re.MULTILINE:
                 continue  # whole-string membership is what is decided
+            if av == sc.AT_END_STRING and i == len(items):
+                continue
+            if av == sc.AT_END and i == len(items) and not flags & re.MULTILINE:
+                # CPython: `$` also matches just before a newline that ends the string, so with .match()/.search()
+                # the pattern accepts the string with that newline appended (fullmatch() does not; users of a
+                # pattern that is only ever applied with fullmatch() pass strict_end=True to to_z3)
+                if not flags & STRICT_END:
+                    out.append(z3.Option(_ch(10)))
+                continue
             raise Unsupported("anchor %r" % (av,))
         elif op == sc.ASSERT_NOT:
             # only `(?!\b)` directly after a literal word character is understood: "the next character exists and
@@ -145,13 +154,21 @@ def _conv(seq, flags):
     return out[0] if len(out) == 1 else z3.Concat(*out)
 
 
-def to_z3(pat, extra_flags=0):
+STRICT_END = 1 << 30  # private flag: `$` is end of string only (the pattern is applied with fullmatch())
+
+
+def to_z3(pat, extra_flags=0, strict_end=False):
+    """the language of whole strings s with pat.match(s) consuming all of s, or consuming all but a final newline
+    after a closing `$` (that is: the strings for which `pat.match(s)` succeeds and nothing but what `$` tolerates
+    is left over); strict_end=True gives the fullmatch() language"""
+    if strict_end:
+        extra_flags |= STRICT_END
     if isinstance(pat, str):
         src, flags = pat, re.compile(pat).flags | extra_flags
     else:
         src, flags = pat.pattern, pat.flags | extra_flags
     if flags & re.VERBOSE:
-        tree = sre_parse.parse(src, flags)
+        tree = sre_parse.parse(src, flags & ~STRICT_END)
     else:
         tree = sre_parse.parse(src)
     return _conv(tree, flags)
@@ -180,3 +197,28 @@ def included(a, b, timeout_ms=60000):
 def unescape_z3(s):
     """z3 prints non-ASCII characters as \\u{XXXX}"""
     return re.sub(r"\\u\{([0-9a-fA-F]+)\}", lambda m: chr(int(m.group(1), 16)), s)
+
+
+def use_methods(module, name):
+    """how the module applies its global compiled pattern `name`: the set of method names in `name.<method>(...)`
+    calls, read from the module's current source"""
+    import ast
+    import inspect
+    tree = ast.parse(inspect.getsource(module))
+    found = set()
+    for node in ast.walk(tree):
+        if (isinstance(node, ast.Call) and isinstance(node.func, ast.Attribute) and isinstance(node.func.value, ast.Name)
+                and node.func.value.id == name):
+            found.add(node.func.attr)
+    return found
+
+
+def accepted_language(module, name):
+    """the set of whole strings the module accepts with its pattern `name`, given how it applies it (match() or
+    fullmatch(); a trailing `$` tolerates one final newline only under match())"""
+    methods = use_methods(module, name) & {"match", "fullmatch", "search", "finditer", "findall", "sub", "split"}
+    if not methods:
+        raise Unsupported("%s.%s is not applied with a method call in its module any more" % (module.__name__, name))
+    if methods - {"match", "fullmatch"}:
+        raise Unsupported("%s.%s is applied with %s" % (module.__name__, name, sorted(methods)))
+    return to_z3(getattr(module, name), strict_end=methods == {"fullmatch"})
